@@ -101,6 +101,10 @@ func StringToAmount(s string) (massutil.Amount, error) {
 	if f < 0 {
 		return massutil.ZeroAmount(), fmt.Errorf("illegal number format")
 	}
+	// strconv.ParseInt accepts a leading sign, an amount numeral must not carry one
+	if sInt[0] == '+' || sInt[0] == '-' || sFrac[0] == '+' || sFrac[0] == '-' {
+		return massutil.ZeroAmount(), fmt.Errorf("illegal number format")
+	}
 
 	u := safetype.NewUint128FromUint(consensus.MaxwellPerMass)
 	u, err = u.MulInt(i)
